@@ -466,7 +466,16 @@ func (w *WalletManager) RemoveWallet(walletId, pass string) error {
 	if err != nil {
 		return err
 	}
-	return w.ntfnsHandler.OnRemoveWallet(walletId)
+	err = w.ntfnsHandler.OnRemoveWallet(walletId)
+	if err != nil {
+		return err
+	}
+	// The worker deletes the keystore later, without the wallet lock. If the wallet stayed
+	// "in use" until then, the keystore in use would turn nil in the middle of API calls
+	// that hold only the read lock (nil pointer in the transaction builder). From here on
+	// the wallet can no longer be selected either (UseWallet refuses removed wallets).
+	w.ksmgr.UnuseKeystore(walletId)
+	return nil
 }
 
 func (w *WalletManager) ChangePrivPassphrase(oldPass, newPass string) error {
